@@ -72,7 +72,7 @@ manifest = {
     ],
     "checks": checks,
     "not_applicable": not_applicable,
-    "notes": "Run ./check <ID> --tier quick|thorough from /verif. VERIF_SEED selects the Hypothesis seed; VERIF_REPO (default /repo) the tree under test. Exit 2 = harness trouble / inconclusive, never a violation.",
+    "notes": "Run ./check <ID> --tier quick|thorough from /verif. VERIF_SEED selects the Hypothesis seed; VERIF_REPO (default /repo) the tree under test. Exit 2 = harness trouble / inconclusive, never a violation. Every check first replays its saved failing inputs (regress/<ID>/*.json: shrunk inputs that failed on a tree with a since-repaired defect or with a seeded change, and pass on /repo), then runs the generated search; KNOWN_FINDINGS.txt lists repaired (fixed:) and open (open:) findings.",
 }
 
 path = os.path.join(HERE, "MANIFEST.json")
